@@ -680,10 +680,15 @@ class Class(Node):
                                 imported_comp_ref = package_ref.concatenate(
                                     ComponentRef(name=component_ref.name)
                                 )
-                                # Search within the package
+                                # Search within the package, for the whole (possibly dotted) name
+                                full_comp_ref = imported_comp_ref
+                                if component_ref.child:
+                                    full_comp_ref = imported_comp_ref.concatenate(
+                                        component_ref.child[0]
+                                    )
                                 try:
                                     # Avoid infinite recursion with search_imports = False
-                                    c = self._find_class(imported_comp_ref, search_imports=False)
+                                    c = self._find_class(full_comp_ref, search_imports=False)
                                     found_comp_ref = imported_comp_ref
                                 except (KeyError, ClassNotFoundError):
                                     pass
